@@ -5,6 +5,7 @@ import csv
 import itertools
 import json
 import os
+import re
 import shutil
 import tempfile
 from collections import Counter
@@ -230,15 +231,22 @@ def pipeline_case(draw):
                              unique=True))
         cols[[['f1', 'f11', 'f2'], ['terms AND conditions', 'f11', 'x AND_REL y']][colset_choice][j]] = {'vals': vals, 'seed': draw(st.integers(0, 2**32 - 1)), 'rare': draw(st.lists(st.integers(0, rows - 1), max_size=3))}
     cols['label'] = {'vals': ['0', '1'], 'seed': draw(st.integers(0, 2**32 - 1)), 'rare': []}
-    return {'seq': {'n': rows, 'cols': cols}, 'ms': sorted(ms), 'task': draw(st.sampled_from(['ranking', 'identify_rare_values'])),
+    case = {'seq': {'n': rows, 'cols': cols}, 'ms': sorted(ms), 'task': draw(st.sampled_from(['ranking', 'identify_rare_values'])),
             'bound': draw(st.sampled_from([0, 0, 1, 2, 4])), 'hist_bound': draw(st.sampled_from([2, 3, 30_000]))}
+    if colset_choice == 0 and ncols == 3 and case['task'] == 'ranking' and draw(st.booleans()):
+        # constructed interaction features under a binding per-batch budget: each exists in some mini-batches only
+        case['order'] = 2
+        case['cap'] = draw(st.sampled_from([1, 2, 2, 4]))
+    return case
 
 
 def run_task(cols, names, m, case, tmp):
     out = os.path.join(tmp, f'out{m}')
     args = stubs.make_args(task=case['task'], minibatch_size=int(m), subsampling=1, data_path=os.path.join(tmp, 'data'),
                            data_source='csv-raw', output_folder=out, heuristic='MI-numba-randomized',
-                           rare_value_count_upper_bound=int(case['bound']), max_unique_hist_constraint=int(case['hist_bound']))
+                           rare_value_count_upper_bound=int(case['bound']), max_unique_hist_constraint=int(case['hist_bound']),
+                           **({'interaction_order': int(case['order']), 'combination_number_upper_bound': int(case['cap'])}
+                              if case.get('order') else {}))
     stubs.reset_globals()
     try:
         tr.outrank_task_conduct_ranking(args)
@@ -271,6 +279,14 @@ def oracle_pipeline(case, rec):
             if case['task'] == 'ranking':
                 ranks = pd.read_csv(os.path.join(out, 'pairwise_ranks.tsv'), sep='\t', keep_default_na=False, na_values=[])
                 annotated = set(ranks.FeatureA) | set(ranks.FeatureB)
+                if case.get('order'):
+                    rec.cls('interaction-features-under-binding-cap')
+                    for full in sorted(annotated):
+                        mm = re.fullmatch(r'(.* AND .*)-\((\d+); (-?\d+)\)', full)
+                        if mm and int(mm.group(3)) != 100:
+                            # a constructed interaction value is a digest, never a missing-value symbol: 100 % in every batch it exists in
+                            raise Violation(f'minibatch_size {m}: interaction feature annotated {full!r}; its values are never missing, so '
+                                            f'the mean of its per-batch coverage percentages is 100', kind='C13/annotation')
                 for c in names:
                     card = len({v for v in cols[c] if v})
                     covs = []
@@ -285,6 +301,8 @@ def oracle_pipeline(case, rec):
                     exp = f'{c}-({card}; {int(round(float(mean), 1))})'
                     if exp not in annotated:
                         got = sorted(x for x in annotated if x.startswith(c + '-('))
+                        if case.get('order') and not got:
+                            continue      # under a binding budget a raw column may never be part of a ranked pair
                         raise Violation(f'minibatch_size {m}: feature {c} is annotated {got}, exact statistics give {exp!r} '
                                         f'(cardinality; mean per-batch coverage)', kind='C13/annotation')
                 with open(os.path.join(out, 'value_repetitions.json')) as fh:
@@ -350,8 +368,55 @@ def oracle_long_history(case, rec):
                         f'exact: {k} values x {nb}', kind='C13/histogram')
 
 
+@st.composite
+def big_counts_case(draw):
+    """A ranking run over more than 10^5 rows in which one value of a column occurs more than 100 000 times (a dominant country /
+    device bucket): the top bucket of the value-repetition histogram."""
+    return {'rows': draw(st.integers(110_000, 140_000)), 'm': draw(st.sampled_from([40_000, 25_000, 60_000])),
+            'rest': draw(st.integers(3, 9)), 'seed': draw(st.integers(0, 2**32 - 1))}
+
+
+def oracle_big_counts(case, rec):
+    import numpy as np
+    n, m = int(case['rows']), int(case['m'])
+    rng = np.random.Generator(np.random.PCG64(int(case['seed'])))
+    k = int(case['rest'])
+    country = np.where(rng.random(n) < 0.93, 'US', np.char.add('c', rng.integers(0, k, size=n).astype(str)))
+    if int((country == 'US').sum()) <= 100_000:
+        country[:] = 'US'
+    device = np.char.add('d', rng.integers(0, 4, size=n).astype(str))
+    label = rng.integers(0, 2, size=n).astype(str)
+    cols = {'country': country.tolist(), 'device': device.tolist(), 'label': label.tolist()}
+    rec.nt(True, key=case)
+    rec.cls('value-count>100000')
+    tmp = tempfile.mkdtemp(prefix='c13b-')
+    old = os.getcwd()
+    orig_pool = tr.Pool
+    try:
+        os.chdir(tmp)
+        os.makedirs('data')
+        with open('data/data.csv', 'w') as fh:
+            fh.write('country,device,label\n')
+            fh.write('\n'.join(','.join(r) for r in zip(cols['country'], cols['device'], cols['label'])) + '\n')
+        tr.Pool = lambda k_=None: stubs.InlinePool()
+        out = run_task(cols, list(cols), m, {'task': 'ranking', 'bound': 1, 'hist_bound': 30_000}, tmp)
+        with open(os.path.join(out, 'value_repetitions.json')) as fh:
+            rep = json.load(fh)
+    finally:
+        tr.Pool = orig_pool
+        os.chdir(old)
+        shutil.rmtree(tmp, ignore_errors=True)
+    consumed = (n // m) * m + (n % m if n % m > 1024 else 0)
+    for c in cols:
+        cnt = Counter(cols[c][:consumed])
+        exp = {str(x): sum(1 for v in cnt.values() if v > x) for x in [0] + [10 ** e for e in range(6)]}
+        if rep.get(c) != exp:
+            raise Violation(f'value_repetitions.json for {c} is {rep.get(c)}, exact {exp} over the {consumed} consumed rows '
+                            f'(largest count {max(cnt.values())})', kind='C13/repetitions')
+
+
 KNOWN_EMPTY = [False]
-ORACLES = {'C13/long-history': oracle_long_history, 'C13/functions': oracle_functions, 'C13/pipeline': oracle_pipeline, 'C13/compositions': oracle_functions}
+ORACLES = {'C13/big-counts': oracle_big_counts, 'C13/long-history': oracle_long_history, 'C13/functions': oracle_functions, 'C13/pipeline': oracle_pipeline, 'C13/compositions': oracle_functions}
 for _k in ('coverage', 'cardinality', 'histogram', 'histogram-split', 'rare'):
     ORACLES['C13/' + _k] = oracle_functions
 for _k in ('annotation', 'repetitions', 'rare-report', 'rare-report-empty'):
@@ -381,4 +446,5 @@ def run(ctx):
         Clause('C13/functions', function_case, oracle_functions, quick=500, thorough=100000, quick_shards=8),
         Clause('C13/long-history', long_history_case, oracle_long_history, quick=2, thorough=32, quick_shards=2, thorough_shards=16),
         Clause('C13/pipeline', pipeline_case, oracle_pipeline, quick=64, thorough=4000, quick_shards=16),
+        Clause('C13/big-counts', big_counts_case, oracle_big_counts, quick=1, thorough=12, quick_shards=1, thorough_shards=12),
     ])
